@@ -290,7 +290,7 @@ fn c20_actuator_new() {
 }
 
 // ------------------------------------------------------------------ GetterStateDeviceWrapper
-//@ob fn="<GetterStateDeviceWrapper<T,E> as Updatable<E>>::update" at=src/devices/wrappers.rs:72 also=rel_check clause="arbitrary terminal slots (optionally connected), inner getter with symbolic update result and symbolic output: inner updated exactly once and first; update error returned with the getter not read and terminal+partner bit-untouched; get error returned, terminal untouched; absent leaves terminal untouched and returns Ok; present datum is written bit-unchanged (time and state) into the state slot (get_last_request equals it), command slot, link and partner untouched"
+//@ob fn="<GetterStateDeviceWrapper<T,E> as Updatable<E>>::update" at=src/devices/wrappers.rs:72 also_thorough=rel_check clause="arbitrary terminal slots (optionally connected), inner getter with symbolic update result and symbolic output: inner updated exactly once and first; update error returned with the getter not read and terminal+partner bit-untouched; get error returned, terminal untouched; absent leaves terminal untouched and returns Ok; present datum is written bit-unchanged (time and state) into the state slot (get_last_request equals it), command slot, link and partner untouched"
 #[kani::proof]
 fn c20_encoder_update_writes_present_state() {
     let mut inner: Scripted<State> = Scripted::new(any_output());
@@ -662,7 +662,7 @@ fn time_in_range(td: &Option<TerminalData>) {
     }
 }
 
-//@ob fn="<PIDWrapper<T,E> as Updatable<E>>::update" at=src/devices/wrappers.rs:144 also=rel_check clause="first round on a wrapper in wiring W with a fresh CommandPID; clock, state, command, gains, terminal slots, optional partner terminal, motor outcomes all symbolic: with terminal data the shared clock becomes its time, the state/command getters take the present fields and keep the absent ones, the PID is updated after that (it took the command in; a fresh PID has an output after one update exactly for a position command, stamped with the new time) and THEN the motor, which receives exactly (bit-equal) the PID's present output, nothing if there is none; without terminal data clock/getters/PID are untouched and only the motor is updated; motor errors are returned; terminal and partner untouched"
+//@ob fn="<PIDWrapper<T,E> as Updatable<E>>::update" at=src/devices/wrappers.rs:144 also_thorough=rel_check clause="first round on a wrapper in wiring W with a fresh CommandPID; clock, state, command, gains, terminal slots, optional partner terminal, motor outcomes all symbolic: with terminal data the shared clock becomes its time, the state/command getters take the present fields and keep the absent ones, the PID is updated after that (it took the command in; a fresh PID has an output after one update exactly for a position command, stamped with the new time) and THEN the motor, which receives exactly (bit-equal) the PID's present output, nothing if there is none; without terminal data clock/getters/PID are untouched and only the motor is updated; motor errors are returned; terminal and partner untouched"
 #[kani::proof]
 #[kani::stub(<State as Div<f32>>::div, stub_state_div_f32)]
 fn c20_pid_update_first_round() {
